@@ -62,7 +62,11 @@ HeightsHigh == {1000000, 10000000}
 
 \* points are 4-tuples of integers; their meaning (and text) depends on the domain kind of the shape
 GeoPts(lons, lats, hs) == {<<lo, la, h, 2020>> : lo \in lons, la \in lats, h \in hs}
-Around(s, dlons, lats, hs) == {<<s.lon0 + d, la, h, 2020>> : d \in dlons, la \in lats, h \in hs}
+\* longitudes are WRITTEN in [-180, 180]: next to a central meridian of 179 the lattice crosses the date line, and the
+\* meridian 2 degrees east of it is written -179, not 181 (the harmless spelling)
+W(l) == IF l > 180 THEN l - 360 ELSE IF l < -180 THEN l + 360 ELSE l
+DLon(l, l0) == LET d == IF l - l0 < 0 THEN l0 - l ELSE l - l0 IN IF d > 180 THEN 360 - d ELSE d
+Around(s, dlons, lats, hs) == {<<W(s.lon0 + d), la, h, 2020>> : d \in dlons, la \in lats, h \in hs}
 
 \* ---- families ----------------------------------------------------------------------
 Families == {"tmerc", "utm", "btmerc", "butm", "merc", "webmerc", "lcc", "laea", "somerc", "omerc", "cart", "cart_high",
@@ -87,12 +91,12 @@ IntKind(s) == Kind(s, "int", "int")
 Shapes(f) ==
     CASE f = "tmerc" -> {Sh(TmText("tmerc", lo, la, r), lo, la) : lo \in (IF Q THEN {9} ELSE {9, -177}), la \in {0, 49},
                                                                     r \in {"", " k_0=0.9996 x_0=500000 y_0=-100000"}}
-      [] f = "utm" -> {UtmShape("utm", z, s) : z \in (IF Q THEN {32} ELSE {1, 32, 60}), s \in BOOLEAN}
-      [] f = "btmerc" -> {Sh(TmText("btmerc", lo, la, r), lo, la) : lo \in {9}, la \in (IF Q THEN {0} ELSE {0, 49}), r \in {"", " k_0=0.9996 x_0=500000 y_0=-100000"}}
-      [] f = "butm" -> {UtmShape("butm", z, s) : z \in (IF Q THEN {32} ELSE {1, 32, 60}), s \in BOOLEAN}
+      [] f = "utm" -> {UtmShape("utm", z, s) : z \in (IF Q THEN {32, 60} ELSE {1, 32, 60}), s \in BOOLEAN}
+      [] f = "btmerc" -> {Sh(TmText("btmerc", lo, la, r), lo, la) : lo \in {9, 179}, la \in (IF Q THEN {0} ELSE {0, 49}), r \in {"", " k_0=0.9996 x_0=500000 y_0=-100000"}}
+      [] f = "butm" -> {UtmShape("butm", z, s) : z \in (IF Q THEN {32, 60} ELSE {1, 32, 60}), s \in BOOLEAN}
       [] f = "merc" -> {Sh(t, 0, 0) : t \in {"merc", "merc lat_ts=56", "merc lat_ts=-30", "merc k_0=0.9996", "merc lon_0=9", "merc x_0=500000 y_0=-100000"}}
-                    \* merc accepts lat_0 as a shift of the latitude (degrees): the domain shifts with it
-                    \cup {Sh("merc lat_0=10", 0, 10), Sh("merc lat_0=-25 lon_0=9", 0, -25)}
+                    \* lat_0: the latitude of the projection centre (maps to the false northing)
+                    \cup {Sh("merc lat_0=10", 0, 0), Sh("merc lat_0=-25 lon_0=9", 0, 0), Sh("merc lon_0=9 lat_0=54 lat_ts=56", 0, 0)}
       [] f = "webmerc" -> {Sh("webmerc", 0, 0)}
       [] f = "lcc" -> {Sh(t, 10, 0) : t \in {"lcc lat_1=57 lon_0=10", "lcc lat_1=-33 lon_0=10", "lcc lat_1=33 lat_2=45 lon_0=10", "lcc lat_1=-33 lat_2=-45 lon_0=10",
                                              "lcc lat_1=40 lat_2=60 lat_0=50 lon_0=10 k_0=0.9996 x_0=500000 y_0=-100000", "lcc lat_1=45 lat_2=45 lon_0=10"}}
@@ -100,7 +104,8 @@ Shapes(f) ==
                       \* latitude of origin at a pole (polar aspect of the cone's apex: rho0 = 0)
                       \cup {Sh("lcc lat_1=75 lat_2=85 lat_0=90 lon_0=10", 10, 0), Sh("lcc lat_1=-70 lat_2=-80 lat_0=-90 lon_0=10", 10, 0)}
       [] f = "laea" -> LaeaShapes
-      [] f = "somerc" -> {Sh("somerc lat_0=46.9524055555556 lon_0=7.43958333333333 k_0=1 x_0=2600000 y_0=1200000", 7, 47), Sh("somerc lat_0=47 lon_0=8", 8, 47)}
+      [] f = "somerc" -> {Sh("somerc lat_0=46.9524055555556 lon_0=7.43958333333333 k_0=1 x_0=2600000 y_0=1200000", 7, 47), Sh("somerc lat_0=47 lon_0=8", 8, 47),
+                           Sh("somerc lat_0=47 lon_0=179", 179, 47), Sh("somerc lat_0=-41 lon_0=-179", -179, -41)}
       [] f = "omerc" -> {Sh("omerc lonc=115 latc=4 alpha=53:18:56.9537 gamma_c=53:07:48.3685 k_0=0.99984", 115, 4),
                          Sh("omerc lonc=115 latc=4 alpha=53:18:56.9537 gamma_c=53:07:48.3685 k_0=0.99984 x_0=590476.87 y_0=442857.65 variant", 115, 4),
                          \* the Laborde form (no gamma_c), with and without `variant`; the southern hemisphere; alpha = 90
@@ -108,7 +113,9 @@ Shapes(f) ==
                          Sh("omerc lonc=115 latc=4 alpha=53:18:56.9537 k_0=0.99984 variant", 115, 4),
                          Sh("omerc latc=40 lonc=20 alpha=90 gamma_c=90 variant", 20, 40),
                          Sh("omerc latc=-40 lonc=20 alpha=90 gamma_c=90", 20, -40),
-                         Sh("omerc latc=-40 lonc=20 alpha=-30 gamma_c=-30 variant", 20, -40)}
+                         Sh("omerc latc=-40 lonc=20 alpha=-30 gamma_c=-30 variant", 20, -40),
+                         \* next to the date line
+                         Sh("omerc latc=40 lonc=179 alpha=30 gamma_c=30", 179, 40), Sh("omerc latc=-17 lonc=-179 alpha=30 gamma_c=30 variant", -179, -17)}
       [] f \in {"cart", "cart_high"} -> {Kind(Sh("cart", 0, 0), "geo", "xyz")}
       [] f = "latitude" -> {Kind(Sh("latitude " \o g, 0, 0), "geo", "geo") : g \in LatFlags}
       [] f = "helmert_translation" -> {IntKind(Sh(t, 0, 0)) : t \in {"helmert x=-87 y=-96 z=-120", "helmert translation=1,2,3", "helmert x=1000000 z=-3"}}
@@ -172,9 +179,9 @@ Pts(f, s) ==
       [] f = "merc" -> {p \in GeoPts(LonsGlobe, Lats89, {0}) : Abs(p[2] + s.lat0) <= 89}
       [] f \in {"webmerc", "lcc"} -> GeoPts(LonsGlobe, Lats89, {0})
       \* within 150 degrees of the centre: |dlat| + |dlon| bounds the spherical distance from above
-      [] f = "laea" -> {p \in GeoPts({s.lon0 + d : d \in LonsGlobe}, Lats90, {0}) : Abs(p[2] - s.lat0) + Abs(p[1] - s.lon0) <= 150}
-      [] f = "somerc" -> {<<s.lon0 + a, s.lat0 + b, 400, 2020>> : a \in Near, b \in Near}
-      [] f = "omerc" -> {<<s.lon0 + 2 * a, s.lat0 + b, 10, 2020>> : a \in Near, b \in Near}
+      [] f = "laea" -> {p \in GeoPts({W(s.lon0 + d) : d \in LonsGlobe}, Lats90, {0}) : Abs(p[2] - s.lat0) + DLon(p[1], s.lon0) <= 150}
+      [] f = "somerc" -> {<<W(s.lon0 + a), s.lat0 + b, 400, 2020>> : a \in Near, b \in Near}
+      [] f = "omerc" -> {<<W(s.lon0 + 2 * a), s.lat0 + b, 10, 2020>> : a \in Near, b \in Near}
       [] f = "cart" -> GeoPts(LonsGlobe, Lats90, HeightsLow)
       [] f = "cart_high" -> GeoPts(LonsGlobe, Lats90, HeightsHigh)
       [] f = "latitude" -> GeoPts({12}, (IF Q THEN Lats90 ELSE -90..90), {0})
@@ -191,14 +198,14 @@ Pts(f, s) ==
 
 \* the documented domain (quantifier of C01), as far as it is stated
 InDomain(f, s, p) ==
-    CASE f \in {"tmerc", "utm"}    -> Abs(p[1] - s.lon0) <= 30 /\ Abs(p[2]) <= 89
-      [] f \in {"btmerc", "butm"}  -> Abs(p[1] - s.lon0) <= 3 /\ Abs(p[2]) <= 89
+    CASE f \in {"tmerc", "utm"}    -> DLon(p[1], s.lon0) <= 30 /\ Abs(p[2]) <= 89
+      [] f \in {"btmerc", "butm"}  -> DLon(p[1], s.lon0) <= 3 /\ Abs(p[2]) <= 89
       [] f \in {"merc", "webmerc", "lcc"} -> Abs(p[1]) <= 180 /\ Abs(p[2]) <= 89 /\ (f = "merc" => Abs(p[2] + s.lat0) <= 89)
-      [] f = "laea"                -> Abs(p[2] - s.lat0) + Abs(p[1] - s.lon0) <= 150 /\ Abs(p[2]) <= 90
+      [] f = "laea"                -> Abs(p[2] - s.lat0) + DLon(p[1], s.lon0) <= 150 /\ Abs(p[2]) <= 90
       [] f = "cart"                -> Abs(p[2]) <= 90 /\ p[3] >= -10000 /\ p[3] <= 100000
       [] f = "cart_high"           -> Abs(p[2]) <= 90 /\ p[3] > 100000 /\ p[3] <= 10000000
       [] f \in {"gridshift", "deformation"} -> p[1] > 40 /\ p[1] < 48 /\ p[2] > 216 /\ p[2] < 224      \* strictly inside coverage (quarter degrees)
-      [] f \in {"somerc", "omerc"} -> Abs(p[1] - s.lon0) <= 6 /\ Abs(p[2] - s.lat0) <= 3
+      [] f \in {"somerc", "omerc"} -> DLon(p[1], s.lon0) <= 6 /\ Abs(p[2] - s.lat0) <= 3
       [] f = "geodesic"            -> Abs(p[1]) <= 90 /\ p[4] <= 10000000                              \* well away from the antipode
       [] OTHER -> Abs(p[2]) <= 90 \/ s.dk \in {"int", "lin", "xyz", "iso_dm", "iso_dms", "geodesic"}
 
